@@ -696,9 +696,7 @@ macro_rules! c13_upload {
             let fail_at: usize = if $failat == 98 { let f: usize = kani::any(); kani::assume(f <= 8); f } else if $failat == 99 { CAP } else { $failat };
             unsafe {
                 C13S.clean = clean;
-                // a file of that name may already exist (earlier upload of the same name / retransmitted WRQ in overwrite mode)
-                let pre: bool = kani::any();
-                FS.exists = pre; FS.gen = if pre { 1 } else { 0 }; FS.len = if pre { 3 } else { 0 }; FS.fail_at = fail_at;
+                FS.exists = false; FS.gen = 0; FS.len = 0; FS.fail_at = fail_at;
                 verif::START_BLOCK = Some(b0);
                 verif::PRELOAD_MODE = 2;
                 verif::PRELOAD_N = $j;
@@ -728,3 +726,137 @@ macro_rules! c13_upload {
         }
     };
 }
+
+// ---- instances generated by the driver ----
+snd_inject!(c04_snd_w1_j0_f3, 1, 2, 0, 3, 1, [(31, 99999, 0, -1)], 0, 2101, 0, 65535, false, false, 9, 6);
+snd_inject!(c04_snd_w2_j1_f4, 2, 2, 1, 4, 1, [(31, 99999, 0, -1)], 0, 2101, 0, 65535, false, false, 9, 6);
+snd_inject!(c04_snd_w2_j0_f2, 2, 2, 0, 2, 1, [(31, 99999, 0, -1)], 0, 2101, 0, 65535, false, false, 9, 6);
+snd_inject!(c04_snd_w3_j2_f5, 3, 2, 2, 5, 1, [(31, 99999, 0, -1)], 0, 2101, 0, 65535, false, false, 9, 6);
+snd_inject!(c04_snd_w2_j2_f3, 2, 2, 2, 3, 1, [(31, 99999, 0, -1)], 0, 2101, 0, 65535, false, false, 9, 6);
+snd_inject!(c04_snd_w3_j3_f4, 3, 2, 3, 4, 1, [(31, 99999, 0, -1)], 0, 2101, 0, 65535, false, false, 9, 6);
+snd_inject!(c04_reset_snd_w1_j0_f3, 1, 2, 0, 3, 1, [(2, 0, 0, 0),(1, 99999, 0, 6)], 5, 2101, 7, 7, false, false, 5, 6);
+snd_inject!(c04_reset_snd_w2_j1_f4, 2, 2, 1, 4, 1, [(2, 0, 0, 0),(1, 99999, 0, 6)], 5, 2101, 7, 7, false, false, 5, 6);
+rcv_inject!(c04_reset_rcv_w3_j0, 3, 2, 0, 0, 1, [(4, 1, 2, 0),(1, 99999, 0, 6)], 5, 2848, 7, 7, false, 5, 12);
+rcv_inject!(c04_reset_rcv_w2_j0, 2, 2, 0, 0, 1, [(4, 1, 2, 0),(1, 99999, 0, 6)], 5, 2848, 7, 7, false, 5, 12);
+rcv_inject!(c04_rcv_w1_j0_f2_d2, 1, 2, 0, 2, 1, [(31, 99999, 2, -1)], 0, 2848, 0, 65535, false, 9, 12);
+rcv_inject!(c04_rcv_w2_j1_f0_d2, 2, 2, 1, 0, 1, [(31, 99999, 2, -1)], 0, 2848, 0, 65535, false, 9, 12);
+rcv_inject!(c04_rcv_w3_j2_f2_d1, 3, 2, 2, 2, 1, [(31, 99999, 1, -1)], 0, 2848, 0, 65535, false, 9, 12);
+rcv_inject!(c04_rcv_w2_j0_f2_d0, 2, 2, 0, 2, 1, [(31, 99999, 0, -1)], 0, 2848, 0, 65535, false, 9, 12);
+rcv_inject!(c04_reack_w1_f2_r0, 1, 2, 0, 2, 1, [(4, 0, 2, 0),(1, 99999, 0, 6)], 5, 6944, 9, 9, false, 0, 12);
+rcv_inject!(c04_reack_w2_f4_r0, 2, 2, 0, 4, 1, [(4, 0, 2, 0),(1, 99999, 0, 6)], 5, 6944, 9, 9, false, 0, 12);
+rcv_inject!(c04_reack_w2_f4_r1, 2, 2, 0, 4, 1, [(4, -1, 2, 0),(1, 99999, 0, 6)], 5, 6944, 9, 9, false, 0, 12);
+
+/// Test generated for harness `worker::verif_harness::c04_reset_rcv_w2_j0` 
+///
+/// Check for `cover`: "witness: transfer function returned"
+///
+/// # Warning
+///
+/// Concrete playback tests combined with stubs or contracts is highly
+/// experimental, and subject to change.
+///
+/// The original harness has stubs which are not applied to this test.
+/// This may cause a mismatch of non-deterministic values if the stub
+/// creates any non-deterministic value.
+/// The execution path may also differ, which can be used to refine the stub
+/// logic.
+
+#[test]
+fn kani_concrete_playback_c04_reset_rcv_w2_j0_16633648108229997395_0() {
+    let concrete_vals: Vec<Vec<u8>> = vec![
+        // 252
+        vec![252],
+        // 0
+        vec![0],
+        // 255
+        vec![255],
+        // 255
+        vec![255],
+        // 255
+        vec![255],
+        // 255
+        vec![255],
+        // 255
+        vec![255],
+        // 255
+        vec![255],
+        // 255
+        vec![255],
+        // 255
+        vec![255],
+        // 255
+        vec![255],
+        // 255
+        vec![255],
+        // 255
+        vec![255],
+        // 255
+        vec![255],
+        // 255
+        vec![255],
+        // 255
+        vec![255],
+        // 255
+        vec![255],
+        // 255
+        vec![255],
+        // 255
+        vec![255],
+        // 255
+        vec![255],
+        // 255
+        vec![255],
+        // 255
+        vec![255],
+        // 255
+        vec![255],
+        // 255
+        vec![255],
+        // 255
+        vec![255],
+        // 255
+        vec![255],
+        // 255
+        vec![255],
+        // 255
+        vec![255],
+        // 255
+        vec![255],
+        // 255
+        vec![255],
+        // 255
+        vec![255],
+        // 255
+        vec![255],
+        // 2
+        vec![2],
+        // 511ul
+        vec![255, 1, 0, 0, 0, 0, 0, 0],
+        // 536870911
+        vec![255, 255, 255, 31],
+        // 65535
+        vec![255, 255],
+        // 3
+        vec![3],
+        // 255
+        vec![255],
+        // 255
+        vec![255],
+        // 0
+        vec![0],
+        // 511ul
+        vec![255, 1, 0, 0, 0, 0, 0, 0],
+        // 536870911
+        vec![255, 255, 255, 31],
+        // 65535
+        vec![255, 255],
+        // 255
+        vec![255],
+        // 255
+        vec![255],
+        // 255
+        vec![255],
+    ];
+    kani::concrete_playback_run(concrete_vals, c04_reset_rcv_w2_j0);
+}
+
